@@ -123,7 +123,7 @@ def norm_proj(proj):
             continue
         if isinstance(e, dict):
             if "f" in e:
-                out.append(("f", e["f"], e.get("n", "")))
+                out.append(("f", e["f"], e.get("n", ""), e.get("a", "")))
             elif "dc" in e:
                 out.append(("dc", e["n"]))
             elif "idx" in e:
@@ -143,6 +143,11 @@ def fields_only(p):
 
 def proj_names(p):
     return [e[2] for e in p if e[0] == "f"]
+
+
+def proj_fields(p):
+    """[(owning ADT short name, field name)] of the field projections"""
+    return [(e[3].rsplit("::", 1)[-1] if len(e) > 3 else "", e[2]) for e in p if e[0] == "f"]
 
 
 # ------------------------------------------------------------------------------------------------
@@ -352,6 +357,8 @@ class Slice:
         self.params = []     # (local, proj)
         self.locals = set()  # every local visited
         self.aggs = []       # (bi, rv) aggregates met
+        self.places = set()  # (local, tuple of field names) for every place visited
+        self.fields = set()  # (owning ADT short name, field name) of every field projection visited
 
     def call_defs(self):
         return [callee_def(t) for _, t, _ in self.calls]
@@ -398,6 +405,8 @@ def backward(body, op, proj=(), stop=None, through_calls=True, max_nodes=20000):
         if n > max_nodes:
             break
         res.locals.add(l)
+        res.places.add((l, tuple(proj_names(pr))))
+        res.fields.update(proj_fields(pr))
         ds = defs.get(l, [])
         if 1 <= l <= body.argc:
             res.params.append((l, pr))
@@ -557,6 +566,7 @@ def forward(body, start_locals, declassify=None, max_iter=100):
     """TAINT⁺: locals reachable by data flow from start_locals.  declassify(term) -> True stops propagation
     through that call (its result / &mut args are not tainted by it).  Returns (tainted set, list of (bi, term,
     [tainted arg indices]))."""
+    body.defs()
     T = set(start_locals)
     changed = True
     it = 0
